@@ -1,4 +1,4 @@
-(* C13: what the bounds of a scan mean for the rows it admits, relative to the SQL semantics of
+(* C13: what the bounds of a scan mean for the rows it keeps, relative to the SQL semantics of
    model/SqlEval.v (trusted, C07): a row that passes every conjunct of a timestamp-bounded scan has
    its timestamp inside the (widened) window and its type among {api type, 0}; and a row inside the
    requested window, stored under its UTC day with the API's type, passes every conjunct that speaks
@@ -72,7 +72,7 @@ Section SEM.
 
   (* the row passes the conjunct (WHERE keeps a row iff the condition is a non-zero number) *)
   Definition passes (r : row) (e : expr) : Prop := truthy (evr e [r]) = Some true.
-  Definition admitted (sc : scan) (r : row) : Prop := forall e, List.In e (sc_conj sc) -> passes r e.
+  Definition kept (sc : scan) (r : row) : Prop := forall e, List.In e (sc_conj sc) -> passes r e.
 
   Definition is_cmp (op : lop) : Prop := match op with OAnd | OOr | OOther _ => False | _ => True end.
   Lemma cmp_int_passes r s op z x :
@@ -94,9 +94,9 @@ Section SEM.
   Definition col_value (sc : scan) (name : string) (unq : list string) (r : row) (v : Z) : Prop :=
     forall s, col_is sc name unq s = true -> lookup s r = Some (VInt v).
 
-  (* (1) confinement: an admitted row of a timestamp-bounded scan lies in the widened window *)
-  Theorem admitted_in_window w sc r ts :
-    ts_bounded w sc -> col_value sc "timestamp_ns" (sc_tsn sc) r ts -> admitted sc r ->
+  (* (1) confinement: a kept row of a timestamp-bounded scan lies in the widened window *)
+  Theorem kept_in_window w sc r ts :
+    ts_bounded w sc -> col_value sc "timestamp_ns" (sc_tsn sc) r ts -> kept sc r ->
     w_lo_min w <= ts /\ ts <= w_hi_max w.
   Proof.
     intros [[lo [[e1 [He1 Hb1]] Hlo]] _ [hi [[e2 [He2 Hb2]] Hhi]] _] Hcol Hadm.
@@ -129,8 +129,8 @@ Section SEM.
   Qed.
 
   (* (1b) ... and its type is the API's type or 0 *)
-  Theorem admitted_type w sc r ty :
-    type_confined w sc -> col_value sc "type" ["type"%string] r ty -> admitted sc r ->
+  Theorem kept_type w sc r ty :
+    type_confined w sc -> col_value sc "type" ["type"%string] r ty -> kept sc r ->
     ty = w_type w \/ ty = 0.
   Proof.
     intros [[l [e [He Hb]]] _ Hall] Hcol Hadm.
